@@ -490,24 +490,47 @@ func reportViolation(prop *Property, tier string, seed int64, v violation) (stri
 			}
 		}
 	}
-	cj, _ := json.MarshalIndent(c, " ", " ")
-	rf := replayFile{Property: prop.ID, Workload: w.Name, Tier: tier, Seed: seed, Index: v.Index, Class: v.Class, Msg: o.Msg, Tape: tape, Case: cj, LogHash: o.LogHash, Log: o.Log, Shrink: map[string]int{"evaluations": evals, "tape_len_before": len(t.Rec), "tape_len_after": len(tape), "structural_evaluations": structEvals, "structural_steps": structSteps}}
-	if rf.Msg == "" {
-		rf.Msg = v.Msg
-	}
 	dir := filepath.Join(outDir(), "replays", prop.ID)
 	os.MkdirAll(dir, 0o755)
 	path := filepath.Join(dir, fmt.Sprintf("%s-%s-%d-%d.json", v.Class, w.Name, seed, v.Index))
-	rj, _ := json.MarshalIndent(rf, "", " ")
-	if err := os.WriteFile(path, rj, 0o644); err != nil {
-		return "", err.Error()
+	writeAndConfirm := func(c any, o Outcome, tape []uint32, shrink map[string]int) string {
+		cj, _ := json.MarshalIndent(c, " ", " ")
+		rf := replayFile{Property: prop.ID, Workload: w.Name, Tier: tier, Seed: seed, Index: v.Index, Class: v.Class, Msg: o.Msg, Tape: tape, Case: cj, LogHash: o.LogHash, Log: o.Log, Shrink: shrink}
+		if rf.Msg == "" {
+			rf.Msg = v.Msg
+		}
+		rj, _ := json.MarshalIndent(rf, "", " ")
+		if err := os.WriteFile(path, rj, 0o644); err != nil {
+			return err.Error()
+		}
+		// confirm in a fresh process (three attempts: a defect whose showing
+		// depends on memory reuse or map order need not show every time)
+		var outb []byte
+		for attempt := 0; attempt < 3; attempt++ {
+			cmd := exec.Command(selfExe(), "replay", path)
+			cmd.Env = append(os.Environ(), "SIM_REPLAY_QUIET=1")
+			outb, _ = cmd.CombinedOutput()
+			if cmd.ProcessState != nil && cmd.ProcessState.ExitCode() == 1 {
+				return ""
+			}
+		}
+		return fmt.Sprintf("replay of %s did not reproduce the violation: %s", path, strings.TrimSpace(string(outb)))
 	}
-	// confirm in a fresh process
-	cmd := exec.Command(selfExe(), "replay", path)
-	cmd.Env = append(os.Environ(), "SIM_REPLAY_QUIET=1")
-	outb, _ := cmd.CombinedOutput()
-	if cmd.ProcessState == nil || cmd.ProcessState.ExitCode() != 1 {
-		return "", fmt.Sprintf("replay of %s did not reproduce the violation: %s", path, strings.TrimSpace(string(outb)))
+	problem := writeAndConfirm(c, o, tape, map[string]int{"evaluations": evals, "tape_len_before": len(t.Rec), "tape_len_after": len(tape), "structural_evaluations": structEvals, "structural_steps": structSteps})
+	if problem != "" && (evals > 0 || structEvals > 0) {
+		// the reduced case does not fail in a fresh process: it may owe its failure
+		// to what the minimising process had run before. Fall back to the case as
+		// generated; only if that does not reproduce either is it harness trouble.
+		c0 := w.Gen(v.Index, ReplayTape(t.Rec), tier)
+		o0 := runCaseMaybeIsolated(prop, w, c0, isolated)
+		if o0.Class == v.Class {
+			if p2 := writeAndConfirm(c0, o0, append([]uint32(nil), t.Rec...), map[string]int{"minimisation_abandoned": 1, "evaluations": evals}); p2 == "" {
+				return path, ""
+			}
+		}
+	}
+	if problem != "" {
+		return "", problem
 	}
 	return path, ""
 }
